@@ -138,7 +138,8 @@ def oracle(cases, module='Oracle', cfg=None, workers=16, timeout_s=900, env=None
             path = os.path.join(d, 'cases-%d.ndjson' % k)
             with open(path, 'w') as f:
                 for c in part:
-                    f.write(json.dumps(c, separators=(',', ':')))
+                    # only what the specification reads (configuration is the harness's business; JSON null is not TLA+)
+                    f.write(json.dumps({'id': c['id'], 'g': c['g'], 'runs': [r[:3] for r in c['runs']]}, separators=(',', ':')))
                     f.write('\n')
             ee = {'CASES': path}
             if env:
